@@ -19,6 +19,8 @@ EvTerm ==
      IF e.panic # ""
      THEN verdicts' = verdicts \cup {<<l, e.case, PrintLoc(e.raw), "panic", "-">>} /\ UNCHANGED ndrift
      ELSE LET vs == JudgeTerm(e.raw, e.built, e.s, e.ok, e.v2, e.s2, e.rebuilt)
+                    \* the parse must not depend on where the reader's buffer happens to end
+                    \cup (IF \E j \in 1..Len(e.splits) : e.splits[j] # (IF e.ok THEN e.s2 ELSE "!") THEN {"parse-split"} ELSE {})
               tagOf(v) == LET ds == ExplainsTerm(e.raw, e.built, v) IN
                           IF ds = {} THEN (IF e.built = Built(e.raw) THEN "same" ELSE "diff") ELSE "dev:" \o (CHOOSE d \in ds : TRUE)
           IN /\ verdicts' = verdicts \cup Tag(e, PrintLoc(e.raw), vs, tagOf)
@@ -29,7 +31,9 @@ EvStr ==
   /\ LET e == Trace[l] IN
      IF e.panic # ""
      THEN verdicts' = verdicts \cup {<<l, e.case, e.in, "panic", "-">>}
-     ELSE verdicts' = verdicts \cup Tag(e, e.in, JudgeStr(e.ok, e.v, e.s1, e.ok1, e.v1, e.s2), LAMBDA v : "-")
+     ELSE verdicts' = verdicts \cup Tag(e, e.in, JudgeStr(e.ok, e.v, e.s1, e.ok1, e.v1, e.s2)
+                                      \cup (IF \E j \in 1..Len(e.splits) : e.splits[j] # (IF e.ok THEN e.s1 ELSE "!") THEN {"parse-split"} ELSE {}),
+                                      LAMBDA v : "-")
   /\ UNCHANGED ndrift
 
 Consume == l <= N /\ (EvTerm \/ EvStr) /\ l' = l + 1
